@@ -153,7 +153,9 @@ def observe(path, mirror_y, ne):
         contours = [np.array(c) for c in sk.contours]
         v, e, c = sk.create_lattice()
         raw = {"vertices": int(sk.vertex_id), "cells": int(sk.cell_id), "cycles": [[w.id for w in cc.vertices] for cc in c.values()],
-               "untouched": len(v) == sk.vertex_id and len(c) == sk.cell_id}
+               "untouched": len(v) == sk.vertex_id and len(c) == sk.cell_id and len(e) == sk.edge_id,
+               "edges": [[x.v1.id, x.v2.id] for _, x in sorted(e.items())], "border": [bool(cc.is_border) for _, cc in sorted(c.items())],
+               "external": [bool(x.external) for _, x in sorted(e.items())]}
         nborder = sum(1 for cc in c.values() if cc.is_border)
         from props.c09 import chain_present
         chain = chain_present(v, e, c, ne)
@@ -284,7 +286,15 @@ def check_image(res, inner, expected, rng, exprs, label, syms, ne_match=False):
             # correspondence of the post-contour logic: vertex interning by pixel position, one cell per contour
             if sum(1 for _, rp_ in exprs if rp_.get("what") != "area filter") < 12 and not mirror and not lit and sum(len(c_) for c_ in contours) < 3000:
                 cl = "[" + "; ".join("[" + "; ".join(f"({int(p[0])}, {int(p[1])})" for p in c_) + "]" for c_ in contours) + "]"
-                cyc = f" && listlistZ_eqb (sk_cells st) {C.zlistlist(raw['cycles'])}" if raw["untouched"] else ""
+                cyc = ""
+                if raw["untouched"]:
+                    # no clean-up pass changed anything: cycles, mesh edges (creation order), border / external flags, no isolated cell
+                    cyc = (f" && listlistZ_eqb (sk_cells st) {C.zlistlist(raw['cycles'])}"
+                           f" && listlistZ_eqb (map (fun e => [fst e; snd e]) (edges_of_cells (sk_cells st))) {C.zlistlist(raw['edges'])}"
+                           f" && listB_eqb (map (is_border (sk_cells st)) (sk_cells st)) {C.blist(raw['border'])}"
+                           f" && listB_eqb (map (is_external (sk_cells st)) (edges_of_cells (sk_cells st))) {C.blist(raw['external'])}"
+                           " && negb (existsb (is_isolated (sk_cells st)) (sk_cells st))")
+                    res.count("lattice correspondence with cycles, edges and flags")
                 exprs.append((f"let st := lattice {cl} in (length (sk_vertices st) =? {raw['vertices']})%nat && "
                               f"(length (sk_cells st) =? {raw['cells']})%nat" + cyc, {"label": label, "symmetry": sname}))
 
